@@ -262,6 +262,7 @@ func (e *enc) instr(b *ssa.BasicBlock, ins ssa.Instruction) {
 	case *ssa.Range:
 		e.names[i] = "0"
 		e.val(i.X)
+		e.containerReadHook(b, i, i.X)
 	case *ssa.Next:
 		n := e.havoc(i)
 		if !i.IsString {
@@ -322,6 +323,10 @@ func (e *enc) instr(b *ssa.BasicBlock, ins ssa.Instruction) {
 	case *ssa.MakeInterface:
 		n := e.havoc(i)
 		x := e.val(i.X)
+		if _, isPtr := i.X.Type().Underlying().(*types.Pointer); isPtr && !e.localAlloc[x] {
+			// interfaces never hold typed nil pointers (global axiom): established here
+			e.addI("safe", "typed-nil", i, R, fmt.Sprintf("(not (= %s 0))", x))
+		}
 		e.assume(fmt.Sprintf("(= %s %s)", n, e.mkIface(x, i.X.Type())))
 	case *ssa.ChangeInterface:
 		e.define(i, e.val(i.X))
@@ -544,6 +549,10 @@ func (e *enc) unop(b *ssa.BasicBlock, i *ssa.UnOp) {
 		default:
 			n := e.define(i, e.load(l))
 			e.loadFacts(n, i, l)
+			e.loadHook(b, i, n)
+			if ia, ok := i.X.(*ssa.IndexAddr); ok {
+				e.containerReadHook(b, i, ia.X)
+			}
 		}
 	case token.NOT:
 		e.define(i, "(not "+e.val(i.X)+")")
@@ -578,8 +587,11 @@ func (e *enc) unop(b *ssa.BasicBlock, i *ssa.UnOp) {
 
 // loadFacts adds the universally valid facts about a value just loaded from the heap.
 func (e *enc) loadFacts(n string, i *ssa.UnOp, l loc) {
-	if l.sort == "Ref" {
-		e.assume(e.allocated(n, e.heap))
+	if l.sort == "Ref" && l.arr != "" {
+		e.assume(e.allocatedIn(n, l.arr, e.heap, l.ref))
+	}
+	if l.sort == "Iface" && l.arr != "" {
+		e.assume(fmt.Sprintf("(=> (is-IPtr %s) %s)", n, e.allocatedIn("(iptr "+n+")", l.arr, e.heap, l.ref)))
 	}
 	if fa, ok := i.X.(*ssa.FieldAddr); ok {
 		pt := fa.X.Type().Underlying().(*types.Pointer).Elem()
@@ -636,6 +648,7 @@ func (e *enc) lookup(b *ssa.BasicBlock, i *ssa.Lookup) {
 		ks, vs := e.sortOf(mt.Key()), e.sortOf(mt.Elem())
 		k := e.val(i.Index)
 		m := e.val(i.X)
+		e.containerReadHook(b, i, i.X)
 		if ks == "Iface" {
 			e.addI("safe", "hash", i, R, fmt.Sprintf("(not (uncomparable %s))", k))
 		}
